@@ -119,6 +119,13 @@ def cases(ctx):
                         continue
                 doc = "<svg>%s%s</svg>" % (pre, body)
                 out.append(dict(family="var." + form, L=L, n=n, input=doc.encode(), cfg=cfg, accept=(n <= L), count=("text", 1), how=how))
+            # attributes of <g> / <reuse> are variables for their content: a value computed for one is limited like a <var>
+            if n >= 2 and n // 2 <= L:
+                a, z = "y" * (n // 2), "z" * (n - n // 2)
+                for form, body in (("g-attr", '<var a="%s"/><g v="${a}%s"><text xy="0 0" text="$v"/></g>' % (a, z)),
+                                   ("reuse-attr", '<var a="%s"/><specs><text id="t" xy="0 0" text="$v"/></specs><reuse href="#t" v="${a}%s"/>' % (a, z))):
+                    doc = "<svg>%s%s</svg>" % (pre, body)
+                    out.append(dict(family="var." + form, L=L, n=n, input=doc.encode(), cfg=cfg, accept=(n <= L), count=("text", 1), how=how))
             # ---- nesting depth: D nested elements including root <svg> and the leaf
             if L <= 100 or not quick:
                 for kind, (o, c) in NEST_KINDS.items():
